@@ -169,8 +169,9 @@ pub fn judge(h_calls: &[Call], docs: &[(Val, Fmt)], to: Fmt, acc: &mut Acc) {
         let bytes = spell(*src, d, &mut rng, &mut f, true);
         let o = run_slice(&bytes, Some(*src), to);
         if !o.verdict.is_ok() {
-            // a document xt cannot translate alone cannot be part of the expected concatenation: harness-side problem
-            acc.inconclusive += 1;
+            // every generated document is one that every streaming target accepts: if it does not translate
+            // alone (as a slice, conventional spelling), that is an observation, not a harness problem
+            acc.violation(Violation { sig: format!("to={}: a generated document does not translate alone ({})", to.name(), ev::truncate(&crate::c02_mask(o.verdict.text()), 60)), case: case(), observed: format!("{} document [{}] as a slice: {}", src.name(), preview(&bytes, 80), o.verdict.show()), expected: "Ok".into() });
             return;
         }
         expected.extend_from_slice(&o.out);
